@@ -167,6 +167,18 @@ func (s *Sim) checkBuffers(ctx *StepCtx) {
 			if !exists || !x.Ever[r.ref()] {
 				continue
 			}
+			refused := false
+			for _, q := range ctx.Reqs {
+				if q.Fault && q.FaultTag == "farupd" && q.Op == "add-update" && q.Key == (RuleKey{"far", x.UP, uint64(r.ID)}) {
+					refused = true
+				}
+			}
+			if refused {
+				// the data plane refused this update: the FAR keeps buffering there, and what
+				// is queued stays queued
+				s.probe("buf.far-update-refused", 1)
+				continue
+			}
 			if nact > 1 || !farIDBeforeAction(r) {
 				x.BufTaint = true // several switches in one message / id after action: outside C13's quantifier
 				continue
